@@ -63,6 +63,7 @@ def draw_cfg(st):
         "act_styles": [i for i in range(len(P.ACT_STYLES)) if i in (0, 1) or st.choose(2, "style-on")],
         "msg_apis": [0, 1, 2],
         "call_budget": 200000,
+        "w_handler": st.choose(2, "handler"),
     }
     w_ops = [6, 6, 1, 1, 1, 0, 0]
     if world == "threads":
